@@ -22,10 +22,14 @@ SPEC = dict(
                 "lattices/src/algebra.rs into Gen/Composites.lean on every run (translation T), and the theorems are about those generated definitions. "
                 "F2: the shipped linearity compared with g(q(b),q(a)); linearity_refuted_before_fix proves the clause false for that code on the "
                 "2-element witness, /repo b3a76e33cee repairs it and linearity_ok_iff_law is proved for the repaired code. "
-                "Semiring applications: binaryTrust_semiring_laws (Bool, all laws), multiplicity_guarded_semiring_laws (checked_add/mul on u32 "
-                "modelled as partial ops on Nat: every law holds whenever neither side panics, results stay in range), cost_semiring_laws_unbounded "
-                "+ cost_mulChecked_eq + cost_mulWrapping_eq_of_no_overflow (N∪{inf}, min, +: laws over unbounded Nat and agreement of the u32 code "
-                "with it under the no-overflow guard), semiring_ok_of_laws (the checker accepts every sample of such a structure). "
+                "Semiring applications: binaryTrust_semiring_laws (Bool, all laws), multiplicity_guarded_semiring_laws + multiplicity_results_in_range "
+                "(checked_add/mul on u32 modelled as partial ops on Nat: every law holds whenever neither side panics, results stay in range), "
+                "cost_guarded_semiring_laws + cost_mul_eq + cost_mul_panics_iff + cost_add_inRange/cost_mul_inRange (the shipped Cost = (u32 U {inf}, min, "
+                "checked +): every law holds whenever neither side panics; mul panics exactly when two finite costs do not fit in u32 and otherwise is the "
+                "unbounded tropical product) on top of cost_semiring_laws_unbounded (N U {inf}, min, +), semiring_ok_of_laws (the checker accepts every sample "
+                "of such a structure). F91: Cost::mul was a bare u32 `+`, which wraps in the release build the checks run: cost_distrib_refuted_before_fix / "
+                "cost_mul_value_refuted_before_fix prove distributivity and the value wrong for that code on (1, u32::MAX, 0); /repo a51aafccc7e makes it "
+                "checked_add().unwrap() and the model/theorems are about the repaired code. "
                 "PARTIAL for f64: ConfidenceScore and FuzzyLogic are NOT covered by any theorem about the code (floating point is not modelled); "
                 "confidenceScore_/fuzzyLogic_semiring_exact_arithmetic only state the intended semantics over an exact linearly ordered commutative ring on [0,1]. "
                 "For the real f64 code the laws are evaluated by the harness oracle, which reproduces F3 (ConfidenceScore multiplication is not associative). "
@@ -37,14 +41,16 @@ SPEC = dict(
                 "itself is evaluated on the real code against an independent brute-force law evaluation."),
     level_note=("Trusted: Lean kernel + propext/Classical.choice/Quot.sound; PartialEq of the element type is taken to be a lawful decidable "
                 "equality (the harness uses u8); closures are pure. f64 semantics are outside the theorems (driver-only Float code, not audited "
-                "by the kernel). Cost::mul is a bare u32 `+`: panics in debug, wraps in release, where distributivity fails "
-                "(cost_distrib_wrap_witness; observed on the real release build, counted as an observation under the no-overflow guard, not as a failure). "
+                "by the kernel). Multiplicity and Cost refuse (panic) on u32 overflow: their laws are claimed for law instances in which neither side panics; "
+                "the harness accepts a panic only when the exact result does not fit in u32. "
+                "The law of a composite checker is by definition the conjunction of its component laws on the sample: integral_domain and field do not test "
+                "zero != one although their doc comments say 'nonzero commutative ring', so the one-element ring passes both (not counted as a finding). "
                 "The for-loop fuel (len^N+1) is shown sufficient by forCP_eq."),
     trusted_base=["Rust closures passed to the checkers are pure; PartialEq on the element type is a lawful equality",
-                  "u32 checked_add/checked_mul/wrapping `+` modelled on Nat (mod 2^32)",
+                  "u32 checked_add/checked_mul modelled on Nat (None above 2^32-1)",
                   "f64 operations of ConfidenceScore/FuzzyLogic: not modelled by theorems; compared bit-for-bit with Lean's native Float in the driver"],
     assumptions=["carrier elements are u8 indices into lookup tables; tables are total over the carrier",
-                 "semiring laws for Multiplicity/Cost are claimed under the no-overflow guard (checked ops panic otherwise)"],
+                 "semiring laws for Multiplicity/Cost are claimed for law instances where no checked operation panics (u32 overflow)"],
 )
 
 
